@@ -22,10 +22,18 @@ import (
 func c20Reexec(r *hk.Run, rng *hk.Rand) {
 	var mu sync.Mutex
 	got := map[string][]string{}
+	hits := map[string][][]string{} // every transmission of a case, in order
 	srv := &http.Server{Handler: http.HandlerFunc(func(w http.ResponseWriter, q *http.Request) {
+		id := q.Header.Get("X-Case")
 		mu.Lock()
-		got[q.Header.Get("X-Case")] = append([]string(nil), q.Header.Values("Authorization")...)
+		got[id] = append([]string(nil), q.Header.Values("Authorization")...)
+		hits[id] = append(hits[id], got[id])
+		n := len(hits[id])
 		mu.Unlock()
+		if strings.HasSuffix(id, "r") && n == 1 {
+			w.WriteHeader(503) // a retryable result: the request is configured to try once more
+			return
+		}
 		w.WriteHeader(204)
 	})}
 	ln, err := net.Listen("tcp", "127.0.0.1:0")
@@ -71,7 +79,9 @@ func c20Reexec(r *hk.Run, rng *hk.Rand) {
 			}
 		}
 		c := req.C()
-		q := c.R()
+		q := c.R().SetRetryCount(1).SetRetryFixedInterval(0).AddRetryCondition(func(resp *req.Response, err error) bool {
+			return err == nil && resp != nil && resp.StatusCode == 503
+		})
 		var ops []string
 		var readable []string
 		var clientCred, reqCred *cred
@@ -114,15 +124,42 @@ func c20Reexec(r *hk.Run, rng *hk.Rand) {
 				key += "|R" + header(cr)
 				readable = append(readable, "request: "+header(cr))
 			default:
+				retried := rng.Chance(35) // the first attempt of this execution gets a 503 and is retried
 				id := fmt.Sprintf("re%d-%d", s, sends)
+				if retried {
+					id += "r"
+				}
 				_, err := q.SetHeader("X-Case", id).Get(base + "/re")
 				mu.Lock()
 				vs, seen := got[id]
+				all := hits[id]
 				mu.Unlock()
-				ops = append(ops, "Send")
-				readable = append(readable, "send")
-				key += "|S"
+				if retried {
+					ops = append(ops, "SendR")
+					readable = append(readable, "send (first attempt 503, retried)")
+					key += "|SR"
+				} else {
+					ops = append(ops, "Send")
+					readable = append(readable, "send")
+					key += "|S"
+				}
 				sends++
+				if wantHits := map[bool]int{false: 1, true: 2}[retried]; len(all) != wantHits {
+					r.Fail(hk.Failure{Sig: fmt.Sprintf("reexec:attempts=%d:retried=%v", len(all), retried), What: "an execution must reach the origin once, or twice when its first attempt got the retryable 503",
+						Input: map[string]interface{}{"sequence": s, "ops": strings.Join(readable, "; ")}, Got: len(all)})
+					ok = false
+					break
+				}
+				if retried && strings.Join(all[0], "\x00") != strings.Join(all[1], "\x00") {
+					r.Fail(hk.Failure{Sig: "reexec:retry-differs", What: "the retry attempt carries another Authorization header than the first attempt", Input: map[string]interface{}{"sequence": s, "ops": strings.Join(readable, "; ")}, Got: all})
+				}
+				if retried { // the first attempt's observation is part of the case
+					if len(all[0]) == 1 {
+						obs = append(obs, "Some "+pks(all[0][0]))
+					} else {
+						obs = append(obs, "None")
+					}
+				}
 				in := map[string]interface{}{"sequence": s, "ops": strings.Join(readable, "; "), "execution": sends}
 				if err != nil || !seen || len(vs) > 1 {
 					r.Fail(hk.Failure{Sig: "reexec:not-transmitted", What: "execution did not reach the origin with at most one Authorization header", Input: in, Got: fmt.Sprint(err, vs)})
